@@ -11,16 +11,17 @@ Module RF := Generated.RewriteFacts.
 (* A result node as far as the plugins look at it / build it.
    nb, ne: code-point range in the (modified) text; surf / norm / dform / rform: the RAW WordInfoData strings as code
    points (an empty norm / dform / rform stands for "same as surface", see [norm_of]);
-   pos: part-of-speech id; oov: word_id().is_oov(); cats: AND of the character classes over the node's range
+   bb, be: byte range the morpheme REPORTS (begin_bytes / end_bytes of the ResultNode: Morpheme::surface() slices the
+   text by it); pos: part-of-speech id; oov: word_id().is_oov(); cats: AND of the character classes over the node's range
    (InputBuffer::cat_of_range); cat0: class of its first character (cat_at_char(begin)). *)
 Record node := mkN {
-  nb : nat; ne : nat; surf : list N; norm : list N; dform : list N; rform : list N;
+  nb : nat; ne : nat; bb : nat; be : nat; surf : list N; norm : list N; dform : list N; rform : list N;
   pos : N; oov : bool; cats : N; cat0 : N }.
 
 Inductive res (A : Type) := Ok (a : A) | ErrRange | PanicIndex.
 Arguments Ok {A} a. Arguments ErrRange {A}. Arguments PanicIndex {A}.
 
-Definition dnode : node := mkN 0 0 [] [] [] [] 0 false 0 0.
+Definition dnode : node := mkN 0 0 0 0 [] [] [] [] 0 false 0 0.
 
 (* WordInfo::normalized_form(): the surface when the stored form is empty *)
 Definition norm_of (n : node) : list N := match norm n with [] => surf n | s => s end.
@@ -35,7 +36,7 @@ Definition and_cats (g : list node) : N :=
    The new node has WordId::INVALID, whose dictionary nibble is 0xf: is_oov() is true. *)
 Definition merged_numeric (g : list node) (nf : option (list N)) : node :=
   let f := hd dnode g in let l := last g dnode in
-  mkN (nb f) (ne l) (concat (map surf g))
+  mkN (nb f) (ne l) (bb f) (be l) (concat (map surf g))
       (match nf with Some s => s | None => concat (map norm g) end)
       (concat (map dform g)) (concat (map rform g)) (pos f) RF.invalid_word_id_is_oov (and_cats g) (cat0 f).
 
@@ -49,7 +50,7 @@ Definition concat_nodes (p : list node) (b e : nat) (nf : option (list N)) : res
 Definition merged_oov (g : list node) (pid : N) : node :=
   let f := hd dnode g in let l := last g dnode in
   let s := concat (map surf g) in
-  mkN (nb f) (ne l) s s s [] pid (existsb oov g) (and_cats g) (cat0 f).
+  mkN (nb f) (ne l) (bb f) (be l) s s s [] pid (existsb oov g) (and_cats g) (cat0 f).
 
 Definition concat_oov_nodes (p : list node) (b e : nat) (pid : N) : res (list node) :=
   if e <=? b then ErrRange
@@ -236,7 +237,7 @@ Fixpoint run_plugins (pls : list plugin) (p : list node) : option (res (list nod
 
 (* observable part of a node: range, surface, normalised / dictionary / reading form, part of speech, OOV flag *)
 Definition node_eqb (a b : node) : bool :=
-  Nat.eqb (nb a) (nb b) && Nat.eqb (ne a) (ne b) && text_eqb (surf a) (surf b) && text_eqb (norm a) (norm b) &&
+  Nat.eqb (nb a) (nb b) && Nat.eqb (ne a) (ne b) && Nat.eqb (bb a) (bb b) && Nat.eqb (be a) (be b) && text_eqb (surf a) (surf b) && text_eqb (norm a) (norm b) &&
   text_eqb (dform a) (dform b) && text_eqb (rform a) (rform b) && N.eqb (pos a) (pos b) && Bool.eqb (oov a) (oov b).
 
 Fixpoint nodes_eqb (a b : list node) : bool :=
@@ -261,8 +262,9 @@ Definition group_ok (allowed_pos : list N) (renorm : bool) (numeric_pos : N) (g 
   match g with
   | [] => false
   | [n] => node_eqb n m ||
-           (renorm && Nat.eqb (nb n) (nb m) && text_eqb (surf n) (surf m) && N.eqb (pos n) (pos m) && N.eqb (pos n) numeric_pos)
-  | f :: _ => Nat.eqb (nb f) (nb m) && Nat.eqb (ne (last g dnode)) (ne m) && text_eqb (concat (map surf g)) (surf m) &&
+           (renorm && Nat.eqb (nb n) (nb m) && Nat.eqb (bb n) (bb m) && Nat.eqb (be n) (be m) && text_eqb (surf n) (surf m) && N.eqb (pos n) (pos m) && N.eqb (pos n) numeric_pos)
+  | f :: _ => Nat.eqb (nb f) (nb m) && Nat.eqb (ne (last g dnode)) (ne m) &&
+              Nat.eqb (bb f) (bb m) && Nat.eqb (be (last g dnode)) (be m) && text_eqb (concat (map surf g)) (surf m) &&
               existsb (N.eqb (pos m)) allowed_pos
   end.
 
